@@ -281,7 +281,7 @@ func (s *wlOrderState) bigList(in []string, uncap int) {
 	in = kept
 	cal.Rep(uint32(len(kept)), 0)
 	for _, cp := range []string{"none", "one", "random", "all"} {
-		for _, L := range []int{1, 4} {
+		for _, L := range []int{1, 4, 20, 72, 73, 100, 103, 500, 1023, 1024, 1025, 5000} {
 			r := spg.NewWLRecipe(L, wl)
 			r.Capitalize = spg.CapScheme(cp)
 			install(policyTape(func(b uint32, k int) uint32 { return 0 }))
@@ -434,6 +434,11 @@ func wlOrderRun(which string) func(c *core.Ctx) {
 					s.bigList(in, len(extra))
 				}
 			}
+			for li, small := range [][]string{{"ab", "cd"}, {"ab", "cd", "efg"}, {"ab", "cd", "efg", "hi", "jk"}, {"ab", "4"}} {
+				if c.MineKey(5 + li) {
+					s.bigList(small, 0)
+				}
+			}
 			if c.MineKey(3) {
 				s.bigList(append(append([]string{}, spg.AgileWords...), "4"), 1)
 				s.bigList(append(append([]string{}, spg.AgileSyllables...), "Ab"), 1)
@@ -464,7 +469,7 @@ func init() {
 		ID:    "C08",
 		Level: "model_checking",
 		Build: "inst",
-		Rule: "every input sequence of length 1-3 (thorough 1-4) over the 8-word universe {ab,cd,Polish,polish,Ab,4,éa,Éa} (all permutations and repetitions of every sub-multiset), every sequence of length 4 (thorough 5) over the twin pairs {ab,Ab,polish,Polish}, 7 longer inputs with up to three twin pairs, lists of 99-70000 generated words and the shipped lists with 0-4 uncapitalisable words added x EVERY iteration order of the map ranges inside NewWordList (instrumented copy; full product of the loops' orders for <=3 distinct words, one loop deviating at a time otherwise) x 7 scheme strings x lengths 1-3 x 3-6 separator settings, Entropy() called 3 times under 2 random streams; " +
+		Rule: "every input sequence of length 1-3 (thorough 1-4) over the 8-word universe {ab,cd,Polish,polish,Ab,4,éa,Éa} (all permutations and repetitions of every sub-multiset), every sequence of length 4 (thorough 5) over the twin pairs {ab,Ab,polish,Polish}, 7 longer inputs with up to three twin pairs, lists of 2-70000 words and the shipped lists with 0-4 uncapitalisable words added, at lengths 1-5000 x EVERY iteration order of the map ranges inside NewWordList (instrumented copy; full product of the loops' orders for <=3 distinct words, one loop deviating at a time otherwise) x 7 scheme strings x lengths 1-3 x 3-6 separator settings, Entropy() called 3 times under 2 random streams; " +
 			"oracle: documented formula within 4 float32 ulps and bit-identical for the same word set across all orders, permutations, repetitions, calls and streams; non-trivial = distinct (word set, recipe) pairs",
 		Assume:      []string{"Go may iterate a map in any order (spec); the instrumented range visits the keys in the chosen order and skips entries deleted meanwhile, as the spec prescribes", "iteration orders inside golang-set are left to the runtime"},
 		Run:         wlOrderRun("C08"),
